@@ -22,6 +22,8 @@ def cpp_desc(rng, nstructs):
             if v not in seen:
                 seen.add(v); vals.append((n, v))
         e["vals"] = vals
+    if rng.random() < 0.6:
+        gen_schema.add_services(rng, desc)          # services make the generator derive rpc types from the schema it is given
     return desc
 
 
@@ -51,7 +53,7 @@ def run(chk):
     broken = chk.proof_obligations(["Corr/Cpp.vo"])
     chk.coverage["rule"] = (
         "schemas of ~10 structs from the serde profile (every constructor, widths 1..64, ids out of declaration order, enumerators below 256) are "
-        "given to the real C++ generator, the output is compiled as C++17 with a generic stdin/stdout driver (a compile error is a failing input), "
+        "given to the real C++ generator twice (same parsed object; more than half declare services), the second output - which must be the first again - is compiled as C++17 with a generic stdin/stdout driver (a compile error is a failing input), "
         "and for boundary-biased values EncodeJson is compared in Coq with the model (= Wire.v) and DecodeJson of canonical bytes with the value; "
         "one schema per run is also built as a declaration-permuted twin (C15); non-trivial = value with >= 2 leaves")
     work = common.scratch_dir("verif_c03_")
@@ -74,6 +76,9 @@ def run(chk):
             outdir = f"{work}/{tag}"
             try:
                 cxx_run.generate_cpp(fcp, outdir)
+                if cxx_run.last_regeneration_diff:
+                    fails.append({"kind": "second-generation-from-the-same-parsed-schema-differs", "schema": text,
+                                  "files_that_differ": cxx_run.last_regeneration_diff[:6]})
                 prepared.append((tag, text, fcp, outdir, twin_of, None))
             except Exception as e:
                 prepared.append((tag, text, fcp, outdir, twin_of, e))
